@@ -95,9 +95,10 @@ class TDict(dict):
     def __contains__(s, k): r = dict.__contains__(s, k); _hit("R", s._k(k), r); return r
     def __setitem__(s, k, v): r = dict.__setitem__(s, k, v); _hit("W", s._k(k), v); return r
     def setdefault(s, k, d=None): v = dict.setdefault(s, k, d); _hit("W", s._k(k), v); return v
-    def pop(s, k, *a): v = dict.pop(s, k, *a); _hit("W", s._k(k), None); return v
-    def __delitem__(s, k): r = dict.__delitem__(s, k); _hit("W", s._k(k), None); return r
-    def clear(s): r = dict.clear(s); _hit("W", s._n + "[*]", s); return r
+    def pop(s, k, *a): v = dict.pop(s, k, *a); _hit("E", s._k(k), None); return v
+    def popitem(s): v = dict.popitem(s); _hit("E", s._n + "[*]", s); return v
+    def __delitem__(s, k): r = dict.__delitem__(s, k); _hit("E", s._k(k), None); return r
+    def clear(s): r = dict.clear(s); _hit("E", s._n + "[*]", s); return r
     def update(s, *a, **k): r = dict.update(s, *a, **k); _hit("W", s._n + "[*]", s); return r
     def __iter__(s): _hit("R", s._n + "[*]", s); return dict.__iter__(s)
     def items(s): _hit("R", s._n + "[*]", s); return dict.items(s)
@@ -316,6 +317,40 @@ def single(A, B, k, warm, gran):
         finally:
             sys.settrace(None)
     return {"a": a[0], "apreview": a[1], "points": st["n"], "b": st["b"][0] if st["b"] else None, "bpreview": st["b"][1] if st["b"] else None}
+
+
+def sweep(descs):
+    """run a long history with the proxies on and report where a cache EVICTS (clear / pop / del on a shared
+    dict): caches that only grow cannot take an entry away from a call that has just checked for it"""
+    import a5  # noqa
+    install_proxies()
+    ev = []
+    for n, dsc in enumerate(descs):
+        _State.log = []
+        _run(dsc)
+        for e in _State.log:
+            if e[0] == "E":
+                ev.append([n, e[1]])
+        _State.log = None
+    return {"evictions": ev[:50]}
+
+
+def single_after(prefix, A, B, k, gran):
+    """like single(), after a prefix history has been executed in this process"""
+    import a5  # noqa
+    if gran == "access":
+        install_proxies()
+    for dsc in prefix:
+        _run(dsc)
+    return single(A, B, k, False, gran)
+
+
+def seq_after(prefix, A):
+    import a5  # noqa
+    for dsc in prefix:
+        _run(dsc)
+    a = _run(A)
+    return {"a": a[0], "apreview": a[1]}
 
 
 def seq(A, warm_with):
